@@ -123,7 +123,11 @@ OkNotes(e) ==
         items == Notes(little, e.align, buf)
     IN /\ DeclNotesOk(little, e.align, buf, items)
        /\ Len(items) <= Len(buf)                                         \* C16: at most one item per byte
-       /\ Out(e) = "ok" /\ e.res.n = Len(items) /\ e.res.items = items
+       /\ Out(e) = "ok"
+       /\ IF InScopeC14(little, e.align, buf) \/ IsZeroW(e.align) \/ Val(e.align) = Huge \/ Val(e.align) > 16777216
+          THEN e.res.n = Len(items) /\ e.res.items = items
+          \* a GNU ABI-tag note without its 16-byte descriptor is outside C14: whatever comes before it is judged
+          ELSE e.res.n >= Len(items) /\ SubSeq(e.res.items, 1, Len(items)) = items
 
 \* C11 / C12
 OkHashFn(e) ==
@@ -134,14 +138,19 @@ OkHashFn(e) ==
 
 OkFind(e) ==
     LET little == IsLittle(e.es)
+        sy == Buf(e, "sym") st == Buf(e, "str")
+    IN /\ Out(e) \in {"ok", "none", "err"}
+       /\ Sound(e.class, little, sy, st, e.name, e.res)                   \* any table bytes: a hit is symtab[idx] and has the name
+       /\ e.wf => (LET present == \E i \in e.first..(Len(ht) - 1) : ht[i + 1] = e.name
+                   IN IF present THEN Out(e) = "ok" ELSE Out(e) = "none")  \* complete on a well-formed table
+\* agreement with the operational model beyond what C11/C12 state (which of two equal names, None vs Err on a
+\* corrupted table) is reported as drift, not judged
+DriftFind(e) ==
+    LET little == IsLittle(e.es)
         hb == Buf(e, "hash") sy == Buf(e, "sym") st == Buf(e, "str")
         r == IF e.op = "sysv_find" THEN SysvFind(e.class, little, hb, sy, st, e.name)
              ELSE GnuFind(e.class, little, hb, sy, st, e.name)
-    IN /\ Sound(e.class, little, sy, st, e.name, e.res)                   \* any table bytes
-       /\ e.wf => (LET present == \E i \in e.first..(Len(ht) - 1) : ht[i + 1] = e.name
-                   IN IF present THEN Out(e) = "ok" ELSE Out(e) = "none")  \* complete on a well-formed table
-       /\ Out(e) = r.out                                                  \* conformance with the operational model
-       /\ r.out = "ok" => (e.res.idx = r.idx /\ e.res.sym = r.sym)
+    IN Out(e) = r.out /\ (r.out = "ok" => (e.res.idx = r.idx /\ e.res.sym = r.sym))
 \* a table the generator claims well formed must satisfy the format's own well-formedness predicate
 GenOkFind(e) ==
     e.wf => IF e.kind = "sysv" THEN SysvWellFormed(e.class, IsLittle(e.es), Buf(e, "hash"), Buf(e, "sym"), Buf(e, "str"))
@@ -288,6 +297,16 @@ StreamBound(e) == CASE e.op = "sopen" -> AllocBound(e, FileOf(e.fileslot))
 StreamLazy(e) == CASE e.op = "sopen" -> LazySOpen(e) [] e.op = "sq" -> LazySQ(e) [] OTHER -> TRUE
 
 GenOk(e) == IF e.op = "hash_wf" THEN GenOkFind(e) ELSE TRUE
+\* C16: at most one item per input byte, never more records than the declared count (judged on the recorded
+\* result alone, independently of the operational model)
+StepsOk(e) ==
+    CASE e.op \in {"verdef_iter", "verneed_iter"} ->
+            Out(e) = "ok" => (e.res.n <= Len(Buf(e, "buf")) /\ (Val(e.count) # Huge => e.res.n <= Val(e.count)))
+      [] e.op \in {"verdaux_iter", "vernaux_iter"} ->
+            Out(e) = "ok" => (e.res.n <= Len(Buf(e, "buf")) /\ e.res.n <= Val(ZExt(SubSeq(e.count, 1, 2), 8)))
+      [] e.op \in {"notes", "iter"} -> Out(e) = "ok" => e.res.n <= Len(Buf(e, "buf"))
+      [] OTHER -> TRUE
+DriftOk(e) == IF e.op \in {"sysv_find", "gnu_find"} THEN DriftFind(e) ELSE TRUE
 
 Tag(e) == IF e.op \in {"q", "sq"} THEN e.op \o ":" \o e.name ELSE e.op
 
@@ -305,6 +324,8 @@ Step ==
           /\ IF abad THEN PrintT(<<"MISMATCH", l, "alloc", Tag(e)>>) ELSE TRUE
           /\ IF ~pbad /\ ~StreamBound(e) THEN PrintT(<<"MISMATCH", l, "bound", Tag(e)>>) ELSE TRUE
           /\ IF ~pbad /\ ~StreamLazy(e) THEN PrintT(<<"MISMATCH", l, "lazy", Tag(e)>>) ELSE TRUE
+          /\ IF ~pbad /\ ~StepsOk(e) THEN PrintT(<<"MISMATCH", l, "steps", Tag(e)>>) ELSE TRUE
+          /\ IF ~pbad /\ ~DriftOk(e) THEN PrintT(<<"MISMATCH", l, "drift", Tag(e)>>) ELSE TRUE
           /\ IF ~GenOk(e) THEN PrintT(<<"MISMATCH", l, "gen", Tag(e)>>) ELSE TRUE
           /\ slots' = CASE e.op = "session" -> [x \in {} |-> 0]
                         [] e.op = "buf" -> [x \in (DOMAIN slots) \cup {e.slot} |->
